@@ -35,8 +35,49 @@ def multitone(rg, N, fmax, shift=0.0, tones=None):
     return x, tones
 
 
+FS = {0: 1.0, 1: 1.0, 2: 2147483648.0, 3: 32768.0}
+# (itype, otype) pairs whose full scales differ (effective gain != 1 even with io_spec.scale = 1) and float32 / float64 mixes
+DTYPE_PAIRS = [(0, 3), (1, 3), (3, 0), (3, 1), (0, 2), (1, 2), (2, 0), (2, 1), (3, 2), (2, 3), (0, 1), (1, 0)]
+
+
+def block_span_in(info, ratio):
+    """Largest dft block of the plan in INPUT frames (a dft stage consumes block_len / L of its own input frames per block;
+    its input runs at the product of the earlier stages' rate changes)."""
+    rate = 1.0                                         # stage input frames per resampler input frame
+    rates = []
+    for s in info["stages"]:
+        rates.append(rate)
+        if s["kind"] == "half":
+            rate *= 0.5
+        elif s["rational"] and s["M"] > 0:
+            rate *= s["L"] / s["M"]
+        else:
+            known = 1.0
+            for t in info["stages"]:
+                if t is not s:
+                    known *= 0.5 if t["kind"] == "half" else t["L"] / t["M"]
+            rate *= (1.0 / ratio) / known
+    span = 0.0
+    for s, r in zip(info["stages"], rates):
+        if s["kind"] == "dft":
+            span = max(span, s["blockLen"] / s["L"] / r)
+    return span
+
+
+def quantise(x, it):
+    """x (float64, |x| < 1) as samples of datatype `it`, and the exact float64 value of those samples."""
+    if it in (2, 3):
+        xi = np.round(x * FS[it]).astype(S.DTYPES[it])
+        return xi, xi.astype(np.float64) / FS[it]
+    if it == 0:
+        xi = x.astype(np.float32)
+        return xi, xi.astype(np.float64)
+    return x, x
+
+
 def job_c12(args):
-    c, seed, nfit = args
+    c, seed, nfit = args[:3]
+    forced = args[3] if len(args) > 3 else {}
     try:
         info, _ = S.run(c)
         if "error" in info:
@@ -44,19 +85,29 @@ def job_c12(args):
         if not info.get("engine", "").startswith("cr") or S.bits_of(info) < 15:
             return {"cfg": c, "label": S.cfg_label(c), "skipped": "property does not speak (precision < 15 bits)"}
         if S.f1_exact(info):
-            return {"cfg": c, "label": S.cfg_label(c), "skipped": "known finding F1 signature"}
+            return {"cfg": c, "label": S.cfg_label(c), "skipped": "known finding F1 signature", "f1": True}
         bits = S.bits_of(info)
         rg = np.random.default_rng(seed)
         ratio = float(c["ir"]) / float(c["orr"])
         wlo, whi = S.extents(c, 1.0 / ratio, 1.0)
         H = wlo + whi + 16
-        N = int(math.ceil((nfit + 2 * H) * ratio)) + 8
+        # the stream spans several blocks of every dft stage (a decimation grid or an overlap that slips at block boundaries shows
+        # on a few samples per block only)
+        span = block_span_in(info, ratio)
+        n_blocks = 3.3 + 1.4 * rg.random()
+        N = int(math.ceil(max((nfit + 2 * H) * ratio, n_blocks * span + 2 * H * ratio))) + 8
         nyq_low = min(1.0, 1.0 / ratio)
-        fmax = info["q"]["pb"] * nyq_low
-        out = dict(cfg=c, label=S.cfg_label(c), engine=info["engine"], plan=S.plan_signature(info), bits=bits, seed=seed, n_in=N,
+        fmax = min(info["q"]["pb"], 2 - info["q"]["sb"]) * nyq_low
+        out = dict(cfg=c, label=S.cfg_label(c), engine=info["engine"], plan=S.plan_signature(info), pclass=S.plan_class(info), bits=bits, seed=seed,
+                   n_in=N, dft_blocks_spanned=round(N / span, 2) if span else None,
                    horizon=H, kinds="+".join(s["kind"] for s in info["stages"]) or "none", designed_ok=S.designed_ok(info),
-                   designed=sum(1 for s in info["stages"] if s["kind"] != "half"))
+                   designed=sum(1 for s in info["stages"] if s["kind"] != "half"), where={})
         R = lambda x, **kw: S.run(c, x, **kw)[1]
+
+        def peak(key, d, scale=1.0):
+            i = int(np.argmax(d)) if len(d) else 0
+            out[key] = float(d[i]) / scale if len(d) else 0.0
+            out["where"][key] = i
 
         # --- superposition: in-band pair and broadband pair, whole stream (start-up included: linearity has no horizon)
         x1, _ = multitone(rg, N, fmax)
@@ -64,32 +115,47 @@ def job_c12(args):
         a, b = rg.uniform(-1, 1), rg.uniform(-1, 1)
         y1, y2 = R(x1), R(x2)
         y12 = R(a * x1 + b * x2)
-        out["sup_inband"] = float(np.abs(y12 - (a * y1 + b * y2)).max())
+        peak("sup_inband", np.abs(y12 - (a * y1 + b * y2)))
         n1, n2 = rg.uniform(-0.45, 0.45, N), rg.uniform(-0.45, 0.45, N)
         z1, z2 = R(n1), R(n2)
         z12 = R(a * n1 + b * n2)
-        out["sup_noise"] = float(np.abs(z12 - (a * z1 + b * z2)).max())
+        peak("sup_noise", np.abs(z12 - (a * z1 + b * z2)))
         out["ab"] = (a, b)
 
-        # --- scale: a power of two (expected bit-exact: every coefficient is scaled exactly) and a general factor
+        # --- scale: a power of two (expected bit-exact: every coefficient is scaled exactly), a general and a negative factor
         k = int(rg.choice([-4, -3, -2, -1, 1, 2, 3]))
         sp = 2.0 ** k
         ysp = R(x1, scale=repr(sp))
         out["scale_pow2"] = sp
-        out["scale_pow2_err"] = float(np.abs(ysp - sp * y1).max() / sp)
+        peak("scale_pow2_err", np.abs(ysp - sp * y1) if len(ysp) == len(y1) else np.array([np.inf]), sp)
         out["scale_pow2_exact"] = bool(np.array_equal(ysp, sp * y1))
-        sg = float(rg.uniform(0.2, 3.0))
+        sg = float(forced.get("scale", rg.uniform(0.2, 3.0) * rg.choice([1, 1, -1])))
+        if not info["stages"]:                         # ratio 1: only a gain makes the planner emit a stage (the cubic stage)
+            out["pclass"] = S.plan_class(S.run(c, scale=repr(sg))[0])
         ysg = R(n1, scale=repr(sg))
         out["scale_gen"] = sg
-        out["scale_gen_err"] = float(np.abs(ysg - sg * z1).max() / sg)
+        peak("scale_gen_err", np.abs(ysg - sg * z1) if len(ysg) == len(z1) else np.array([np.inf]), abs(sg))
 
         # --- DC: a full-scale constant converges to the same constant (times scale)
         ydc = R(np.ones(N))
-        out["dc_err"] = float(np.abs(ydc[H:len(ydc) - H] - 1.0).max())
+        peak("dc_err", np.abs(ydc[H:len(ydc) - H] - 1.0))
         ydcs = R(np.ones(N), scale=repr(sg))
-        out["dc_scaled_err"] = float(np.abs(ydcs[H:len(ydcs) - H] - sg).max() / sg)
+        peak("dc_scaled_err", np.abs(ydcs[H:len(ydcs) - H] - sg), abs(sg))
 
-        # --- shift covariance at the implementation period, broadband, beyond the start-up horizon
+        # --- datatypes: the full-scale conversion itype -> otype is part of the gain (times io_spec.scale); the typed run may differ
+        #     from the float64 run of the same sample values by the output format's own resolution and the precision only
+        it, ot = forced.get("dtypes", DTYPE_PAIRS[int(rg.integers(len(DTYPE_PAIRS)))])
+        sd = float(forced.get("dscale", rg.choice([1.0, 1.0, 0.5, 2.0, float(rg.uniform(0.4, 1.9))])))
+        xt = 0.4 * x1 / max(1e-9, np.abs(x1).max()) + 0.05
+        xi, xd = quantise(xt, it)
+        yt = R(xi, itype=it, otype=ot, scale=repr(sd)).astype(np.float64) / FS[ot]
+        yd = R(xd)
+        out["dtypes"] = (int(it), int(ot))
+        out["dtype_scale"] = sd
+        out["dtype_bound"] = S.out_resolution(ot) + abs(sd) * lim1(bits)
+        peak("dtype_err", np.abs(yt - sd * yd) if len(yt) == len(yd) else np.array([np.inf]))
+
+        # --- shift covariance at the implementation period, broadband, beyond the start-up horizon: per sample, max norm
         per = S.plan_period(info)
         fr = Fraction(c["orr"]).limit_denominator(1 << 20) / Fraction(c["ir"]).limit_denominator(1 << 20)
         L, M = fr.numerator, fr.denominator
@@ -100,13 +166,23 @@ def job_c12(args):
             Hin = int(math.ceil(H * ratio / MP)) * MP
             xs = np.concatenate([np.zeros(Hin), n1[:max(1000, N - Hin)]])
             ya = R(xs)
-            yb = R(np.concatenate([np.zeros(MP), xs]))
-            m = int(0.98 * min(len(yb) - LP, len(ya)))
-            if m > 100:
-                d = np.abs(yb[LP:LP + m] - ya[:m])
-                out["shift_impl_err"] = float(d.max())
-                out["shift_impl_exact"] = bool(d.max() == 0)
-                out["shift_impl_lead_zero"] = bool(np.all(yb[:LP] == 0) or np.abs(yb[:LP]).max() <= np.abs(ya[:1]).max())
+            kk = int(rg.integers(2, 8))
+            out["shift_multiples"] = (1, kk)
+            worst_d = np.zeros(1)
+            exact = True
+            for q in (1, kk):
+                yb = R(np.concatenate([np.zeros(q * MP), xs]))
+                m = int(0.98 * min(len(yb) - q * LP, len(ya)))
+                if m > 100:
+                    d = np.abs(yb[q * LP:q * LP + m] - ya[:m])
+                    if d.max() >= worst_d.max():
+                        worst_d = d
+                        out["shift_impl_multiple"] = q
+                    exact = exact and bool(d.max() == 0)
+            if len(worst_d) > 1:
+                peak("shift_impl_err", worst_d)
+                out["shift_impl_exact"] = exact
+                out["shift_impl_bad_samples"] = int((worst_d > lim1(bits)).sum())
             # --- shift covariance at the REDUCED period L/M, in-band signal in steady state (only a plan that runs on
             #     rational clocks implements the ratio L/M exactly; an interpolated stage rounds it: C04's allowance)
             if M <= 20000:
@@ -115,11 +191,18 @@ def job_c12(args):
                 ya, yb = R(xa), R(xb)
                 lo, hi = H, min(len(ya), len(yb) - L) - H
                 if hi - lo > 100:
-                    out["shift_reduced_err"] = float(np.abs(yb[lo + L:hi + L] - ya[lo:hi]).max())
+                    d = np.abs(yb[lo + L:hi + L] - ya[lo:hi])
+                    peak("shift_reduced_err", d)
+                    out["shift_reduced_bad_samples"] = int((d > lim1(bits)).sum())
+                    out["shift_reduced_tones"] = [(float(t[0]), float(t[1]), float(t[2])) for t in tones]
         return out
     except Exception:
         import traceback
         return {"cfg": c, "label": S.cfg_label(c), "error": traceback.format_exc()[-1500:]}
+
+
+def probe_f1_dc(c):
+    return S.probe_f1(c, "dc")
 
 
 def job_plan(c):
@@ -142,6 +225,7 @@ CLAUSES = [  # (key in the job result, what, needs-rational)
     ("dc_scaled_err", "DC convergence with io_spec.scale (relative to the factor)"),
     ("shift_impl_err", "shift covariance at the implementation period (M_P in -> L_P out), broadband, beyond the horizon"),
     ("shift_reduced_err", "shift covariance at the reduced period (M in -> L out), in-band, steady state"),
+    ("dtype_err", "datatype pair: typed run vs io_spec.scale x the float64 run of the same sample values"),
 ]
 
 
@@ -165,9 +249,12 @@ def run(ctx):
         ctx.violation("hypothesis of Soxr.C12.gain_always_carried fails: plan of %s consists of half-band stages only (%s): nothing carries io_spec.scale"
                       % (p[0], p[2]), {"config": p[0], "plan": p[2]}, no_input=True)
 
-    # ---------------- row sums of the measured rows (the hypothesis of dc_unity_iff_rows)
-    cfgs = list(S.QUICK_CORE) + S.pick_rational(rng, 2 if quick else 150, exclude=S.QUICK_CORE)
-    rows = S.pool_map(S.job_rows, [(c, 700 if quick else 2000, 3e6 if quick else 8e6) for c in cfgs])
+    # ---------------- row sums of the measured rows (the hypothesis of dc_unity_iff_rows): one member of every plan class
+    sel_rows, st_rows = S.cover(rng, ["base"], S.COVER_RATIOS, per_ratio=2 if quick else 6, max_period=64 if quick else 400)
+    cfgs = [[c] for c in S.QUICK_CORE] + [e["members"] for e in sel_rows]
+    if not quick:
+        cfgs += [[c] for c in S.pick_rational(rng, 150, exclude=S.QUICK_CORE)]
+    rows = S.pool_map(S.job_rows_first, [(m, 700 if quick else 2000, 3e6 if quick else 8e6) for m in cfgs])
     n_rows = 0
     for r in rows:
         if "error" in r:
@@ -179,8 +266,13 @@ def run(ctx):
         n_rows += r["LP"]
         lim = lim1(r["bits"])
         m = r["pass"]["row_sum_dev"] / lim
+        fid = S.known_excess(r, "rowsum", m)
+        if fid:
+            ctx.known(fid, S.known_text(fid, r, "a row of the measured period sums to 1 %+.3g = %.2f x 2^(1-bits)" % (r["pass"]["row_sum_dev"], m)))
+            continue
         worst["row_sum_dev/2^(1-bits)"] = max(worst.get("row_sum_dev/2^(1-bits)", 0), m)
         sigs.add((r["engine"], r["plan"], "rows"))
+        ctx.hist("rows_plan_class", r["pclass"])
         if m > 1:
             ctx.violation("C12 DC gain: %s: a row of the measured period sums to 1 %+.3g, off by %.2f x 2^(1-bits): a constant input does not "
                           "come out as the same constant" % (r["label"], r["pass"]["row_sum_dev"], m),
@@ -188,12 +280,24 @@ def run(ctx):
     ctx.count("row_sums_measured", n_rows)
 
     # ---------------- paired runs on the real code
-    if quick:
-        cfgs = list(S.QUICK_CORE) + S.pick_any(rng, 10)
-    else:
-        cfgs = list(S.QUICK_CORE) + S.pick_any(rng, 500) + S.pick_rational(rng, 300)
-    jobs = [(c, rng.below(1 << 30), 6000 if quick else 10000) for c in cfgs]
+    # one member of every (plan class, knob) pair the planner produces on the seeded pool: every run hits every planner path, with the
+    # recipe's own quality spec, with a non-linear phase setting and with moved band edges; each case carries its own scale factors
+    # (power of two, general, negative) and a datatype pair with a different full scale
+    sel, st = S.cover(rng, ["base", "ph*", "band*"], S.COVER_RATIOS + S.COVER_IRRATIONAL, per_ratio=2 if quick else 8, members=1,
+                      max_period=1000, rtflags=(None, None, 2, 3))
+    ctx.cov["covering_pool"] = st
+    cfgs = list(S.QUICK_CORE) + [e["members"][0] for e in sel]
+    nfit = 6000 if quick else 10000
+    jobs = [(c, rng.below(1 << 30), nfit) for c in cfgs]
+    # no stage at all (ratio 1) but a gain: the cubic stage is forced to carry it (cr.c: 343-346) - io_spec.scale and datatype pairs
+    for simd in (0, 1):
+        for rec in (3, 6):
+            jobs.append((S.mkcfg(1, 1, rec, 0, simd=simd), rng.below(1 << 30), nfit,
+                         {"scale": rng.uniform(0.3, 2.5), "dtypes": rng.choice(DTYPE_PAIRS[:10]), "dscale": 1.0}))
+    if not quick:
+        jobs += [(c, rng.below(1 << 30), nfit) for c in S.pick_any(rng, 500) + S.pick_rational(rng, 300)]
     res = S.pool_map(job_c12, jobs)
+    classes_hit, engines_hit = set(), set()
     n_cases = n_cmp = 0
     exact = {"scale_pow2": [0, 0], "shift_impl": [0, 0]}
     for t in res:
@@ -206,24 +310,36 @@ def run(ctx):
         n_cases += 1
         lim = lim1(t["bits"])
         sigs.add((t["engine"], t["plan"], "paired"))
+        classes_hit.add(t["pclass"])
+        engines_hit.add(t["engine"])
         ctx.hist("engine", t["engine"])
-        ctx.hist("stage_kinds", t["kinds"])
+        ctx.hist("plan_class", t["pclass"])
         ctx.hist("designed_stages", t["designed"])
+        ctx.hist("datatype_pair", "%d->%d" % t["dtypes"])
+        if t.get("dft_blocks_spanned"):
+            ctx.hist("dft_blocks_spanned", "%d" % min(20, int(t["dft_blocks_spanned"])))
         if "LP" in t:
             ctx.hist("implementation_period_ne_reduced", int((t["LP"], t["MP"]) != (t["L"], t["M"])))
         for key, what in CLAUSES:
             if key not in t:
                 continue
             n_cmp += 1
-            m = t[key] / lim
-            worst[key + "/2^(1-bits)"] = max(worst.get(key + "/2^(1-bits)", 0), m)
+            bound = t["dtype_bound"] if key == "dtype_err" else lim
+            m = t[key] / bound
+            wk = key + ("/(output resolution + scale x 2^(1-bits))" if key == "dtype_err" else "/2^(1-bits)")
+            worst[wk] = max(worst.get(wk, 0), m)
             if m > 1:
-                ctx.violation("C12 %s: %s: differs by %.3g of full scale = %.2f x 2^(1-bits)" % (what, t["label"], t[key], m),
+                ctx.violation("C12 %s: %s: differs by %.3g of full scale = %.2f x bound at output frame %d%s"
+                              % (what, t["label"], t[key], m, t["where"].get(key, -1),
+                                 (" (%d samples of the compared stretch out of bound)" % t[key.replace("_err", "_bad_samples")])
+                                 if key.replace("_err", "_bad_samples") in t else ""),
                               {"config": t["cfg"], "plan": t["plan"], "engine": t["engine"], "clause": what, "signal_seed": t["seed"],
                                "input_frames": t["n_in"], "weights_a_b": t.get("ab"), "scale_pow2": t.get("scale_pow2"), "scale_general": t.get("scale_gen"),
+                               "datatypes_itype_otype": t.get("dtypes"), "datatype_run_scale": t.get("dtype_scale"),
                                "implementation_period": [t.get("LP"), t.get("MP")], "reduced_period": [t["L"], t["M"]],
-                               "measured_level": t[key], "bound": lim,
-                               "replay": "checks/c12.py job_c12((config, signal_seed, %d)) regenerates the signals" % (6000 if quick else 10000)})
+                               "shift_in_implementation_periods": t.get("shift_impl_multiple"), "tones_amp_freq_phase": t.get("shift_reduced_tones"),
+                               "worst_output_frame": t["where"].get(key), "measured_level": t[key], "bound": bound,
+                               "replay": "checks/c12.py job_c12((config, signal_seed, %d)) regenerates the signals" % nfit})
         exact["scale_pow2"][0] += 1
         exact["scale_pow2"][1] += int(t["scale_pow2_exact"])
         if "shift_impl_exact" in t:
@@ -232,7 +348,19 @@ def run(ctx):
         ctx.sample({"config": t["label"], "engine": t["engine"], "plan": t["plan"], "signal_seed": t["seed"], "input_frames": t["n_in"],
                     "margins(measured/2^(1-bits))": {k: round(t[k] / lim, 5) for k, _ in CLAUSES if k in t},
                     "scale_pow2": t["scale_pow2"], "scale_pow2_bit_exact": t["scale_pow2_exact"], "shift_impl_bit_exact": t.get("shift_impl_exact")})
+    f1_seen = [t for t in res if t.get("f1")]
+    ctx.count("f1_signature_configurations_set_aside", len(f1_seen))
+    for txt in S.pool_map(probe_f1_dc, [t["cfg"] for t in f1_seen[:4]]):
+        if txt:
+            ctx.known("F1", txt)
     ctx.count("paired_run_cases", n_cases)
+    miss = S.missing_classes(classes_hit, S.REQUIRED_CLASSES + S.REQUIRED_ORDERS + [("cubic stage forced to carry the gain (ratio 1)", r"^cubic$")])
+    miss += ["engine " + e for e in S.REQUIRED_ENGINES if e not in engines_hit]
+    ctx.cov["plan_classes_hit"] = len(classes_hit)
+    ctx.cov["required_classes_missing"] = miss
+    for name in miss:
+        ctx.violation("coverage: no paired-run case of this run went through the planner path `%s` (the covering pool no longer produces it)" % name,
+                      {"missing_class": name, "classes_hit": sorted(classes_hit)}, no_input=True)
     ctx.count("clause_comparisons", n_cmp)
     ctx.cov["bit_exact_counts"] = {"scale_power_of_two": "%d of %d" % (exact["scale_pow2"][1], exact["scale_pow2"][0]),
                                    "shift_at_implementation_period": "%d of %d" % (exact["shift_impl"][1], exact["shift_impl"][0])}
